@@ -7,6 +7,35 @@ BUILT = {
    text="Seeded deterministic-simulation search: real client and real daemon code run in one process over a scheduled simulated transport in arrangements A1-A4; hundreds (quick) to tens of thousands (thorough) of generated (tree, prior destination, options, sources, arrangement, transport personality) scenarios are judged by a reference model of selection and update rule. Evidence of absence of violations proportional to the coverage counters; not a proof.",
    note="Trusted: reference model verif/sim/model, fstree snapshotting, the simulator kernel. A4 is not schedule-controlled. Known findings listed in known_findings.json are reported as KNOWN-FINDING.",
    tech="deterministic simulation (seeded scheduler over simulated transport) + reference-model oracle"),
+ "C02": dict(cat="exploration", ref="DESIGN.md §6 C02",
+   text="Seeded simulation search with an independent protocol-27 peer: the reference receiver sends the real sender checksum sets of its own choosing (block lengths 1..131072, strong lengths 2..16, bases with colliding weak sums, duplicated blocks, recurring remainder blocks, short-reading simulated disk) and checks that the token stream reproduces the source; the reference sender feeds the real receiver scripted token streams. The thorough tier additionally enumerates all targets x bases over {a,b} up to length 6 x block lengths 1..4.",
+   note="Trusted: verif/sim/refproto (cross-checked against tridge rsync 3.2.7 --protocol=27 by go test ./refproto), fstree content generator.",
+   tech="deterministic simulation with a reference protocol peer as oracle; bounded enumeration of a small-alphabet sub-space"),
+ "C04": dict(cat="fault_enumeration", ref="DESIGN.md §6 C04",
+   text="Every quiescent point of every simulated session (receiver parked in Read at byte N) is a checked crash point: each listed destination path must be old-complete, new-complete or legitimately absent. On top, connection cuts of either direction and freezes of the receiving party are injected at sampled byte offsets (6 per scenario quick, 30 thorough); after an error return no temporary file may remain.",
+   note="Crash points are wire-token boundaries; crashes between two syscalls of one goroutine and power-loss durability are not simulated (no storage seam). One known finding (leftover temp file when the generator's write fails first) is reported as KNOWN-FINDING.",
+   tech="deterministic simulation with fault injection: step invariant + cut/freeze faults at byte offsets"),
+ "C09": dict(cat="exploration", ref="DESIGN.md §6 C09",
+   text="Seeded search over source/destination tree pairs with extraneous entries in every sort position, exclude rules, pull/push/local arrangements and a simulated sender-disk error raising the I/O-error flag; reference-model oracle on the exact entry set after the run.",
+   note="Trusted: model of --delete and exclude protection (verif/sim/model, sem.go).",
+   tech="deterministic simulation + reference-model oracle; sender-disk fault injection"),
+ "C10": dict(cat="exploration", ref="DESIGN.md §6 C10",
+   text="Seeded search over trees with every entry type in every update situation x option subsets x arrangements with -n; full destination snapshot compared before/after and during the run; the sender's wire stream is decoded and must contain no file data.",
+   note="A4 has no wire tap. Trusted: fstree snapshots, refproto stream parser.",
+   tech="deterministic simulation: snapshot invariant + wire-history monitor"),
+ "C13": dict(cat="exploration", ref="DESIGN.md §6 C13",
+   text="Seeded search over trees and lists of 0-4 plain-name rules (exclude/include/-f) in pull, push and local arrangements; destination entry set must equal the first-match-wins model; wildcard rules must give an error or rsync's selection.",
+   note="Input/configuration-quantified: the simulator is the execution vehicle (in-process two-party sessions); schedule varies per run but does not decide the property.",
+   tech="deterministic simulation as vehicle + reference-model oracle over generated rule lists"),
+ "C14": dict(cat="exploration", ref="DESIGN.md §6 C14",
+   text="The same scenario is run through all five arrangements for sampled subsets of 20 options on a tree with every entry type; desynchronisation shows as error, crash or (exactly detected) deadlock; destinations are compared with each other and with the model's entry set.",
+   note="Option subsets are sampled, not enumerated. Runs as root.",
+   tech="deterministic simulation with exact deadlock detection; cross-arrangement differential oracle"),
+ "C16": dict(cat="exploration", ref="DESIGN.md §6 C16",
+   text="Literal bytes and block references are counted in the real sender's token stream (decoded by the reference parser) for high-entropy files with 0-4 unaligned edits, with the real generator's signatures and with reference signatures at other block sizes; identical file => 0 literal bytes, otherwise literal <= edited bytes + 3 blocks per break + 1 block.",
+   note="Bound constant deliberately loose so a correct sender never trips it.",
+   tech="deterministic simulation + wire-history monitor (literal-byte accounting)"),
+
  "C18": dict(cat="exploration", ref="DESIGN.md §6 C18",
    text="Seeded schedule search: every Read/Write of both parties is a scheduled event, so 'no enabled action while operations are pending' is an exact deadlock detector over the capacity {0,1,7,64,64Ki,inf}^2 x chunking x bias x stall matrix; 2-32 concurrent sessions against one Server are interleaved by the same tape and compared with their solo results; data races are sought with the Go race detector on free-running sessions at GOMAXPROCS 1/4/16. Sampling, not enumeration.",
    note="Trusted: simulator kernel (quiescence from testing/synctest), fstree snapshots. Race part is happens-before analysis, not schedule search. A4 (io.Pipe inside the code under test) is only hang-checked.",
